@@ -140,7 +140,8 @@ def _passes_false_branch(g, tests: List[Node], target: Node):
     return [r1, r2]
 
 
-def r_raise_inventory(ctx: Ctx, rule: str):
+def r_raise_inventory(ctx: Ctx, rule: str, classes: Optional[Set[str]] = None, entries: Optional[Set[str]] = None, guards: Optional[Set[str]] = None):
+    """classes / entries restrict the inventory; guards subset of {"nconc", "size", "dup"} selects the guard-shape checks (default: all)"""
     rep = ctx.rep
     rep.rule(rule, "raise inventory by constant propagation from each entry point: apply/_map/start can reach NotCoroutineFunction, PoolIsClosed, "
                    "PoolIsLocked; apply/_map also TaskGroupAlreadyExists; _map ValueError (num_concurrent < 1); the pool_size setter ValueError")
@@ -153,7 +154,12 @@ def r_raise_inventory(ctx: Ctx, rule: str):
         "start": {"NotCoroutineFunction", "PoolIsClosed", "PoolIsLocked"},
         "pool_size.setter": {"ValueError"},
     }
+    guards = {"nconc", "size", "dup"} if guards is None else guards
     for name, need in want.items():
+        if entries is not None and name not in entries:
+            continue
+        if classes is not None:
+            need = need & classes
         funcs = ctx.pool_setters("pool_size") if name.endswith(".setter") else ctx.pool_funcs(name, required=name in ("apply", "_map", "start"))
         for f in funcs:
             got: Set[str] = set()
@@ -170,7 +176,7 @@ def r_raise_inventory(ctx: Ctx, rule: str):
                 rep.ob(rule, f"{name} can reject with {cls}", cls in got, func=f, construct=f"{name}: raise {cls}",
                        detail="" if cls in got else "no reachable raise of this class from the entry point with its literal/default arguments")
     # the guards themselves
-    for f in ctx.pool_funcs("_map"):
+    for f in (ctx.pool_funcs("_map") if "nconc" in guards else []):
         tests = ctx.nodes(f, lambda n: n.op == "test" and isinstance(n.ast, ast.Compare) and expr_role(ctx, f, n.ast.left) == "NCONC")
         ok = None
         for t in tests:
@@ -178,7 +184,7 @@ def r_raise_inventory(ctx: Ctx, rule: str):
             if c is not None:
                 ok = c == ("<", 1) or c == ("<=", 0)
         rep.ob(rule, "_map rejects exactly num_concurrent < 1", ok, func=f, construct=tests[0] if tests else "(no comparison of num_concurrent)")
-    for f in ctx.pool_setters("pool_size"):
+    for f in (ctx.pool_setters("pool_size") if "size" in guards else []):
         tests = ctx.nodes(f, lambda n: n.op == "test" and isinstance(n.ast, ast.Compare) and isinstance(n.ast.left, ast.Name) and n.ast.left.id in f.param_names())
         ok = None
         for t in tests:
@@ -186,15 +192,43 @@ def r_raise_inventory(ctx: Ctx, rule: str):
             if c is not None:
                 ok = c == ("<", 0) or c == ("<=", -1)
         rep.ob(rule, "the pool_size setter rejects exactly value < 0", ok, func=f, construct=tests[0] if tests else "(no comparison)")
-    for name in ("apply", "_map"):
-        for f in ctx.pool_funcs(name):
-            rs = ctx.nodes(f, lambda n: n.op == "raise" and n.ast.exc is not None and any(c.endswith("TaskGroupAlreadyExists") for c in ctx.hier.resolve(f.module, n.ast.exc)))
-            for r in rs:
-                g = ctx.an.cfg(f)
-                tests = [t for t in ctx.nodes(f, lambda n: n.op == "test" and isinstance(n.ast, ast.Compare) and isinstance(n.ast.ops[0], ast.In)
-                                                and ctx.eff.paths(f).of(n.ast.comparators[0]) == "self._task_groups" and expr_role(ctx, f, n.ast.left) == "GROUP")]
-                ok = bool(tests) and r not in reach([g.entry], avoid=set(tests))
-                rep.ob(rule, "TaskGroupAlreadyExists is raised exactly when the requested name is in the group table", ok, node=r)
+    n_dup = 0
+    for f in (ctx.pool_functions() if "dup" in guards else []):
+        rs = ctx.distinct_sites(ctx.nodes(f, lambda n: n.op == "raise" and n.ast.exc is not None and any(c.endswith("TaskGroupAlreadyExists") for c in ctx.hier.resolve(f.module, n.ast.exc))))
+        for r in rs:
+            n_dup += 1
+            g = ctx.an.cfg(f)
+            P = ctx.eff.paths(f)
+
+            def is_membership(t: Node) -> Optional[bool]:
+                """True: proper membership test of the requested name in the group table; False: a test of the table that is not a membership test"""
+                e = t.ast
+                if isinstance(e, ast.UnaryOp) and isinstance(e.op, ast.Not):
+                    e = e.operand
+                if isinstance(e, ast.Compare) and len(e.ops) == 1 and isinstance(e.ops[0], (ast.In, ast.NotIn)):
+                    c = e.comparators[0]
+                    if isinstance(c, ast.Call) and isinstance(c.func, ast.Attribute) and c.func.attr == "keys":
+                        c = c.func.value
+                    if P.of(c) == "self._task_groups" and expr_role(ctx, f, e.left) == "GROUP":
+                        return True
+                if isinstance(e, ast.Compare) and len(e.ops) == 1 and isinstance(e.ops[0], (ast.Is, ast.IsNot)) and isinstance(e.comparators[0], ast.Constant) and e.comparators[0].value is None:
+                    l = e.left
+                    if isinstance(l, ast.Call) and isinstance(l.func, ast.Attribute) and l.func.attr == "get" and P.of(l.func.value) == "self._task_groups" and len(l.args) == 1:
+                        return True
+                if any(isinstance(x, ast.Attribute) and P.of(x) == "self._task_groups" for x in ast.walk(t.ast)):
+                    return False
+                return None
+
+            tests = ctx.nodes(f, lambda n: n.op == "test")
+            proper = [t for t in tests if is_membership(t) is True]
+            improper = [t for t in tests if is_membership(t) is False and r in reach([t])]
+            ok = bool(proper) and r not in reach([g.entry], avoid=set(proper))
+            rep.ob(rule, "TaskGroupAlreadyExists is raised exactly when the requested name is in the group table", ok, node=r,
+                   detail="" if ok else ("the guard is not a membership test: " + improper[0].text(60) + " (an existing group whose register is still empty is falsy, so its name is accepted again)"
+                                          if improper else "no membership test of the name in the group table dominates the raise"))
+            # and the accepting path: registration only on the not-a-member outcome
+    if "dup" in guards:
+        rep.floor(rule, "raise TaskGroupAlreadyExists sites", n_dup, 1)
 
 
 def n_cmp(c: ast.Compare) -> Optional[Tuple[str, int]]:
@@ -274,7 +308,7 @@ def r_one_spawner_per_request(ctx: Ctx, rule: str, names=("apply", "_map", "star
                           and any(x is s.ast for x in ast.walk(m.ast))]
                 rep.ob(rule, "the spawner task is registered among the group's running spawners (so cancel_group / gather_and_close can find it)", bool(stored), node=s)
             # group registration before the spawner exists
-            regs = ctx.nodes(f, lambda n: any(e.kind == "insert" and e.path == "self._task_groups" for e in ctx.eff.of_node(n)))
+            regs = ctx.nodes(f, lambda n: any(e.kind == "insert" and e.path == "self._task_groups" for e in ctx.trans_effects(n)))
             rep.ob(rule, f"{name} registers the group", bool(regs), func=f, construct=regs[0] if regs else "(no registration)")
             # returned name == name passed to the spawner
             rets = [n for n in ctx.nodes(f, lambda n: n.op == "return") if n.ast.value is not None]
